@@ -1,7 +1,10 @@
 package main
 
 import (
+	"bytes"
 	"fmt"
+	"io"
+	"strings"
 
 	cedar "github.com/cedar-policy/cedar-go"
 	"github.com/cedar-policy/cedar-go/types"
@@ -156,6 +159,13 @@ func runC02(c *vh.Ctx) {
 		if p := vh.Protect(func() { d, diag := cedar.Authorize(vh.SliceIter(cs.ps), em, req); outIter = vh.ShowAuthz(d, diag) }); p != nil {
 			outIter = fmt.Sprintf("panic %v", p)
 		}
+		// policies that came through the text codec and the streaming decoder (a third source of policies)
+		if ci%3 == 0 && len(cs.ps) > 0 {
+			c.Res.OracleChecks++
+			if msg := viaDecoder(cs.ps, em, req, cs.env.Env); msg != "" {
+				c.Report(vh.Finding{Class: "authz-decoded-policies", What: msg, Check: "oracle", Op: "authz", Input: map[string]any{"policies": vh.EncPolicies(cs.ps)}})
+			}
+		}
 		// direct oracle: the four sentences over per-policy unfolded evaluation
 		spec := vh.SpecAuthz(cs.ps, cs.env.Env)
 		c.Res.OracleChecks++
@@ -185,4 +195,60 @@ func runC02(c *vh.Ctx) {
 		c.Report(vh.Finding{Class: "authz-model-mismatch", What: fmt.Sprintf("authz disagreement: impl=%q model=%q", d.Line.Impl, d.Model),
 			Check: "correspondence", Op: "authz", Input: d.Line.Payload(), Expected: d.Model, Actual: d.Line.Impl})
 	}
+}
+
+// stripPos removes "@file:o:l:c" position parts from a ShowAuthz/SpecAuthz string.
+func stripPos(s string) string {
+	var b strings.Builder
+	skip := false
+	for _, r := range s {
+		switch {
+		case r == '@':
+			skip = true
+		case skip && (r == ',' || r == ']'):
+			skip = false
+			b.WriteRune(r)
+		case !skip:
+			b.WriteRune(r)
+		}
+	}
+	return b.String()
+}
+
+// viaDecoder renders the policies as one document, decodes it policy by policy with cedar.NewDecoder,
+// authorizes with ALL decoded policies afterwards and compares with the specification over the
+// original ASTs (ids and decision; positions differ by construction). "" = fine or not applicable.
+func viaDecoder(ps []vh.IDPolicy, em types.EntityGetter, req cedar.Request, env eval.Env) string {
+	var doc bytes.Buffer
+	for _, ip := range ps {
+		doc.Write(ip.P.MarshalCedar())
+		doc.WriteString("\n")
+	}
+	dec := cedar.NewDecoder(bytes.NewReader(doc.Bytes()))
+	var got []vh.IDPolicy
+	for i := 0; ; i++ {
+		var p cedar.Policy
+		err := dec.Decode(&p)
+		if err == io.EOF {
+			break
+		}
+		if err != nil {
+			return "" // rendering does not reparse: C08's business (known findings there)
+		}
+		if i >= len(ps) {
+			return "decoder yielded more policies than the document holds"
+		}
+		pp := p
+		got = append(got, vh.IDPolicy{ID: ps[i].ID, AST: ps[i].AST, P: &pp})
+	}
+	if len(got) != len(ps) {
+		return ""
+	}
+	d, diag := cedar.Authorize(vh.SliceIter(got), em, req)
+	have := stripPos(vh.ShowAuthz(d, diag))
+	want := stripPos(vh.SpecAuthz(ps, env))
+	if have != want {
+		return fmt.Sprintf("policies decoded from their own text through cedar.NewDecoder authorize as %q, the property says %q", have, want)
+	}
+	return ""
 }
